@@ -485,6 +485,16 @@ def run(ctx):
         for kind, m in _mutations(rng, auth, d, ctx.tier):
             for ignore in (0, 1):
                 rx.append({'op': 'recv', 'kind': kind, 'ignore': ignore, 'dgram': lean.hexs(m)})
+    # every payload length 0..255, without and with an authentication code: the datagram itself, one byte more
+    # (00h and FFh: a pad byte is not part of the format the property describes) and one byte less
+    for n in range(256):
+        for auth in (0, 2 if n % 2 else 1):
+            payload = bytes((n * 5 + 3 * k + 1) % 256 for k in range(n))
+            d = lan_datagram(auth, _b32(rng), _b32(rng), None if auth == 0 else bytes(16), payload)
+            for kind, m in (('len-sweep:valid', d), ('len-sweep:+00', d + b'\x00'), ('len-sweep:+ff', d + b'\xff'),
+                            ('len-sweep:-1', d[:-1])):
+                for ignore in (0, 1):
+                    rx.append({'op': 'recv', 'kind': kind, 'ignore': ignore, 'dgram': lean.hexs(m)})
     # directed: length byte off by one in both directions, wrong version / class, valid without payload
     base = lan_datagram(0, 5, 6, None, b'\x20\x1c\xc4\x81\x04\x38\x43')
     for kind, m in (('len+1', lan_datagram(0, 5, 6, None, b'\x01\x02\x03', length=4)),
